@@ -35,6 +35,12 @@ MapLines ==
     \* two overloads without line information: one frame resolves to two IDENTICAL frames (both are kept)
     MethodAst(B("void"), <<>>, B("ov"), B("int"), <<>>, <<>>, B("o")),
     MethodAst(B("void"), <<>>, B("ov"), B("long"), <<>>, <<>>, B("o")),
+    \* an inline group whose CALLERS are named by keys of the mapping (names kept as they are): remapping is applied
+    \* once, to the frame given, never again to what it produced
+    MethodAst(B("void"), <<B("x.Callee")>>, B("c"), <<>>, <<D(6), D(6)>>, <<D(13), D(13)>>, B("q")),
+    MethodAst(B("void"), <<B("keep.K")>>, B("outer"), <<>>, <<D(6), D(6)>>, <<D(7), D(7)>>, B("q")),
+    ClassAst(B("keep.K"), B("keep.K")),
+    MethodAst(B("void"), <<>>, B("renamed"), <<>>, <<D(1), D(9)>>, <<D(101), D(109)>>, B("outer")),
     ClassAst(B("com.example.Bar$Baz"), B("b.c")),
     SourceFileAst(B("Bar.kt")),
     MethodAst(B("void"), <<>>, B("plain"), <<>>, <<>>, <<>>, B("p"))>>
@@ -50,7 +56,7 @@ RtMessages == {<<>>, <<B(": ")>> , <<B("Caused by: x")>>, <<B("at a.b(c:1)")>>} 
               (IF Rich THEN {<<B("m") \o E>>, <<B("x: y: z")>>} ELSE {})
 RtThrowables == {T(c, m) : c \in RtClasses, m \in RtMessages}
 RtFrames == {F(c, m, l, f) :
-               c \in {B("a.B"), B("a$b")} \cup (IF Rich THEN {E \o B(".C")} ELSE {}),
+               c \in {B("a.B"), B("a$b"), B("m@1/a.B$$L/0x1")} \cup (IF Rich THEN {E \o B(".C")} ELSE {}),
                m \in {B("<init>"), B("m")},
                l \in {D(0), U64Max} \cup (IF Rich THEN {D(1)} ELSE {}),
                f \in {B("B.java"), B(""), B("x(y).java")} \cup (IF Rich THEN {B("<unknown>"), B("x(y)")} ELSE {})}
@@ -74,6 +80,7 @@ TextLines ==
    B("    at a.n(SourceFile:4)"),              \* mapped frame -> 2 frames (inline group)
    B("    at a.m(SourceFile:9)"),              \* known method, line outside every range
    B("    at a.o(SourceFile:5)"),              \* mapped frame -> 2 identical frames (overloads without lines)
+   B("    at a.q(SourceFile:6)"),              \* mapped frame -> 2 frames, the caller's name is itself a key
    B("    at zz.Unknown.f(X.java:1)"),         \* unmapped frame
    <<9>> \o B("at b.c.p(Native Method)"),      \* tab indented; "Native Method" has no ':' -> not a frame
    <<9>> \o B("at b.c.p(Unknown Source:7)"),   \* tab indented mapped frame
@@ -101,7 +108,8 @@ TyFrames == {F(B("a"), B("m"), D(2), B("SourceFile")),     \* -> 1
              F(B("a"), B("m"), D(9), B("SourceFile")),     \* known method, no entry applies
              F(B("a"), B("o"), D(5), B("SourceFile")),     \* -> 2 identical frames
              F(B("zz.U"), B("f"), D(1), B("X.java")),      \* unknown class
-             F(B("b.c"), B("p"), D(0), B("Y"))}            \* no range entry, class-level file
+             F(B("b.c"), B("p"), D(0), B("Y")),            \* no range entry, class-level file
+             F(B("a"), B("q"), D(6), B("SourceFile"))}     \* -> 2, the second of which is itself a key (keep.K.outer)
 \* runs of identical frames (deep recursion): every frame of a run is remapped on its own
 TyFrameSeqs == {<<>>} \cup {<<f>> : f \in TyFrames} \cup {<<f, g>> : f, g \in TyFrames}
                \cup {<<f, f, f>> : f \in TyFrames} \cup {<<f, f, f, f>> : f \in TyFrames}
